@@ -422,6 +422,8 @@ def correspondence(ctx):
             rep.fail("failing-input", "completed fitting stages left temp files behind: %r" % (left,), "C16:temp-files-left",
                      input={"basis": basis, "n": n, "ranks": P}, observed=left, expected="partial_<run>/ empty after a completed run")
         prevb = "true" if prev else "false"
+        per_rank = {}
+        ok_all = True
         for rc, out, err in rs:
             tr = json.loads(out)
             r, m = tr["rank"], tr["nfun"]
@@ -430,30 +432,56 @@ def correspondence(ctx):
             except Unknown as e:
                 rep.fail("broken-correspondence", "fitting stages %r perform an operation outside the model: %s" % (spec, e),
                          "C16:fit-unknown-op", observed=str(e), theorem="fitting stage tie")
+                ok_all = False
                 break
             mblk = blocks_of([t for t in st["match"] if is_locs(t)])
             mblk = mblk[0] if mblk else [0, []]
             nfinal = sum(1 for t in st["combine"] if t.startswith("Append"))
+            per_rank[r] = dict(st=st, m=m, mblk=mblk, nfinal=nfinal)
             models = {
-                "ctor": ("ctor_prog 0", "(fun f => fname_eqb f (DataF 0))"),
-                "fit": ("fit_rank 0 %d %d %s %d %d" % (b, n, prevb, r, m), "(fit_inputs %d %d %s)" % (b, n, prevb)),
-                "fisher": ("fisher_rank 0 %d %d %d" % (b, n, r), "(fisher_inputs 0 %d %d)" % (b, n)),
-                "match": ("match_rank 0 %d %d %d %s" % (b, n, r, coq_block(mblk)), "(match_inputs 0 %d %d)" % (b, n)),
-                "combine": ("combine_rank 0 %d %d %d %d" % (b, n, r, nfinal), "(combine_inputs 0 %d %d)" % (b, n)),
+                "ctor": "ctor_prog 0",
+                "fit": "fit_rank 0 %d %d %s %d %d" % (b, n, prevb, r, m),
+                "fisher": "fisher_rank 0 %d %d %d" % (b, n, r),
+                "match": "match_rank 0 %d %d %d %s" % (b, n, r, coq_block(mblk)),
+                "combine": "combine_rank 0 %d %d %d %d" % (b, n, r, nfinal),
             }
-            for stg, (model, inp) in models.items():
-                tag = "FIT-%s-%d-P%d-prev%d-r%d-%s" % (basis, n, P, prev, r, stg)
+            # (a) every rank's own operations are the model's per-rank program, and its dictionary accesses are disciplined
+            for stg, model in models.items():
+                tag = "RANK-%s-%d-P%d-prev%d-r%d-%s" % (basis, n, P, prev, r, stg)
                 name = "tr_" + re.sub(r"\W", "_", tag)
                 defs += "Definition %s : prog := %s.\n" % (name, coq_prog(st[stg]))
-                extra = ", block_ok %s" % coq_block(mblk) if stg == "match" else ", true"
-                evals += coq_eval(tag, name, model, inp, extra)
-                # a rank other than 0 does not remove its own temp file (rank 0 does, after the barrier): its own segment is
-                # balanced only for rank 0; def_before_use / inserted_before_lookup must hold for every rank's segment
-                bal = "true" if (r == 0 or stg == "ctor") else "false"
-                meta[tag] = dict(kind="fit", expect="None, (true, true, %s, true, true)" % bal)
+                evals += ('Eval vm_compute in ("%s", first_diff 0 %s (%s), (inserted_before_lookup %s, prefix_inserts %s, block_ok %s)).\n'
+                          % (tag, name, model, name, name, coq_block(mblk)))
+                meta[tag] = dict(kind="rank", expect="None, (true, true, true)")
             rep.case(key=("fit", basis, n, P, prev, r), sample={"stage": "fit,fisher,match,combine", "basis": basis, "n": n,
                      "ranks": P, "rank": r, "ignore_previous_eqns": bool(prev), "functions_of_rank": m,
                      "match_block": coq_block(mblk), "final_rows": nfinal})
+        if not ok_all or sorted(per_rank) != list(range(P)):
+            continue
+        # (b) the whole stage: the ranks' traced segments, superstep by superstep (split at the barriers), are the model's
+        #     stage program, and THAT traced program passes def_before_use / inserted_before_lookup / tmp_balanced
+        def split_post(ops):
+            k = next((i for i, t in enumerate(ops) if t.startswith("CatGlob")), len(ops))
+            return ops[:k], ops[k:]
+        ser = {}
+        s1len = lambda r: 1 + ((n - 1) + 1 if (r == 0 and prev) else 0)
+        fit_s1 = [t for r in range(P) for t in per_rank[r]["st"]["fit"][:s1len(r)]]
+        fit_s2 = [t for r in range(P) for t in split_post(per_rank[r]["st"]["fit"][s1len(r):])[0]]
+        ser["fit"] = (fit_s1 + fit_s2 + split_post(per_rank[0]["st"]["fit"])[1],
+                      "fit_prog 0 %d %d %s [%s]" % (b, n, prevb, "; ".join(str(per_rank[r]["m"]) for r in range(P))),
+                      "(fit_inputs %d %d %s)" % (b, n, prevb))
+        for stg, model, inp in (("fisher", "fisher_prog 0 %d %d %d" % (b, n, P), "(fisher_inputs 0 %d %d)" % (b, n)),
+                                ("match", "match_prog 0 %d %d [%s]" % (b, n, "; ".join(coq_block(per_rank[r]["mblk"]) for r in range(P))),
+                                 "(match_inputs 0 %d %d)" % (b, n)),
+                                ("combine", "combine_prog 0 %d %d %d %d" % (b, n, P, per_rank[0]["nfinal"]), "(combine_inputs 0 %d %d)" % (b, n))):
+            pre = [t for r in range(P) for t in split_post(per_rank[r]["st"][stg])[0]]
+            ser[stg] = (pre + split_post(per_rank[0]["st"][stg])[1], model, inp)
+        for stg, (ops, model, inp) in ser.items():
+            tag = "STAGE-%s-%d-P%d-prev%d-%s" % (basis, n, P, prev, stg)
+            name = "tr_" + re.sub(r"\W", "_", tag)
+            defs += "Definition %s : prog := %s.\n" % (name, coq_prog(ops))
+            evals += coq_eval(tag, name, model, inp)
+            meta[tag] = dict(kind="stage", expect="None, (true, true, true, true)")
         # the serialised stage programs of the model for this rank count pass the checks (instances of the theorems)
     rc, res, flat = run_coq(defs, evals)
     rep.traces += len(meta)
@@ -464,9 +492,12 @@ def correspondence(ctx):
     for tag, mt in sorted(meta.items()):
         got = res.get(tag)
         if got != mt["expect"]:
+            legend = {"rank": "(inserted_before_lookup, prefix_inserts, block_ok)",
+                      "stage": "(def_before_use, inserted_before_lookup, tmp_balanced, prefix_inserts)",
+                      "gen": "(def_before_use, inserted_before_lookup, tmp_balanced, prefix_inserts, block_ok of every sympify block, "
+                             "number of tree shapes, number of do_sympy rounds)"}[mt["kind"]]
             what = ("traced operations of the real stage differ from the model program, or the traced program fails a check "
-                    "(tag %s): Coq says (first differing op index, (def_before_use, inserted_before_lookup, tmp_balanced, "
-                    "prefix_inserts, ...)) = %s, expected %s" % (tag, got, mt["expect"]))
+                    "(tag %s): Coq says (first differing op index, %s) = %s, expected %s" % (tag, legend, got, mt["expect"]))
             rep.fail("broken-correspondence", what, "C16:trace-vs-model:" + tag.split("-")[0], observed=got, expected=mt["expect"],
                      theorem="generation_prog / *_rank programs of Model/History.v; def_before_use, inserted_before_lookup")
     rep.rule = ("traces of the real generation (%d basis/complexity pairs) and of the real fit/fisher/match/combine stages "
@@ -727,6 +758,17 @@ def search(ctx):
                          "differing_files": diffs, "sympy_locs_params_after": info["locs_params"]})
         if not diffs:
             continue
+        nshrunk = getattr(ctx, "_c16_shrunk", 0)
+        ctx._c16_shrunk = nshrunk + 1
+        if nshrunk >= 2:      # shrink the first two failures only; report the others with their full history
+            fn = diffs[0]
+            rep.fail("failing-input",
+                     "output of %s differs between a fresh process and the same call after the (unshrunk) history %s: file %s, %s"
+                     % (json.dumps(obs, sort_keys=True), json.dumps(hist), fn, json.dumps(first_diff(bfiles.get(fn, b""), files.get(fn, b"")))),
+                     "C16:history-dependence:%s:%s" % (obs["k"], re.sub(r"\d+", "N", fn.split("/")[-1])),
+                     input={"observed": obs, "history": hist, "pre_mpi": pre, "file": fn},
+                     observed=first_diff(bfiles.get(fn, b""), files.get(fn, b"")), expected="byte-identical files")
+            continue
         # shrink: shortest prefix of the history that still changes a byte, then drop calls one by one
         cur = list(hist)
         curpre = pre
@@ -734,8 +776,12 @@ def search(ctx):
         def differs(h, p):
             try:
                 f2, _ = w0.run(h, obs, pre_mpi=p)
-            except RuntimeError:
+            except RuntimeError as e:
+                if os.environ.get("ESRV_C16_DEBUG"):
+                    print("[shrink] candidate failed:", len(h), str(e)[-300:])
                 return None
+            if os.environ.get("ESRV_C16_DEBUG"):
+                print("[shrink] candidate", len(h), compare(bfiles, f2))
             return compare(bfiles, f2)
         if curpre and differs(cur, None):
             curpre = None
